@@ -126,7 +126,12 @@ def build_real(case):
     for i, nd in enumerate(nodes):
         if nd["kind"] == "comp":
             wiring = {f"p{j}": handles[p["src"]] for j, p in enumerate(nd["params"]) if p["src"] is not None}
-            if wiring: pb.connect(handles[i], **wiring)
+            if wiring:
+                # a component may be addressed by its node, by its name, or by an alias declared for it: the wiring is the component's either way
+                via = case.get("connect_via", "node")
+                if via == "name": pb.connect(f"n{i}", **wiring)
+                elif via == "alias": pb.alias(f"alias-of-n{i}", handles[i]); pb.connect(f"alias-of-n{i}", **wiring)
+                else: pb.connect(handles[i], **wiring)
     for pn, tgt in (case.get("defaults") or {}).items(): pb.default_connection(pn, handles[tgt])
     if case.get("redefault"):
         how = case.get("between", "build")
@@ -170,7 +175,9 @@ def gen_redefault(rng):
 def gen(rng: random.Random, tier: str):
     n = {"quick": 1500, "thorough": 200000}[tier]
     for k in range(n):
-        yield gen_redefault(rng) if k % 25 == 7 else gen_case(rng)
+        c = gen_redefault(rng) if k % 25 == 7 else gen_case(rng)
+        c["connect_via"] = ("node", "node", "name", "alias")[k % 4]          # how the components are addressed when they are wired
+        yield c
 
 def run(case: dict, lean: Lean) -> Outcome:
     _imports()
@@ -205,6 +212,7 @@ def run(case: dict, lean: Lean) -> Outcome:
     if "err" in real["result"]: classes.append("error: " + real["result"]["err"])
     if as_is != rep: classes.append("as-is ≠ repaired")
     if case.get("defaults"): classes.append("default connections")
+    if case.get("connect_via", "node") != "node": classes.append("wired by " + case["connect_via"])
     if case.get("redefault"): classes.append("defaults re-pointed after " + case.get("between", "build"))
     if any(nd["kind"] == "comp" and nd["op"] == "raise" and nd["k"] % 4 == 1 for nd in nodes): classes.append("component raising KeyError")
     key = None
